@@ -7,7 +7,7 @@ package c05
 // measures the bank supply of unibi and the unibi balances of the scenario accounts
 //
 //	0 signer  1 fee collector  2 EOA recipient R  3 contract X  4 beneficiary B
-//	5 N = CreateAddress(signer, nonce)  6 contract Y (frame-revert shape)  7 B2  8 C3
+//	5 N = CreateAddress(signer, nonce)  6 contract Y (frame-revert shape)  7 B2  8 C3  9 driver contract D
 //
 // plus tx code, VmError flag and MsgEthereumTxResponse.GasUsed (EventEthereumTx.gas_used).
 //
@@ -54,6 +54,16 @@ type c05Tx struct {
 	Target  string `json:"target"`  // eoa | x | create | y
 	Mode    int    `json:"mode"`    // x: 0..8 ; create: 0 ok, 1 reverting init code
 	W       string `json:"w"`       // x modes 3,6: wei forwarded; modes 7,8: unibi sent by the precompile
+	Steps   []c05Step `json:"steps"` // target d: calls the driver contract D makes to X inside this one tx
+}
+
+// one call D -> X: X runs `mode` (0 keep, 1 revert, 3 forward w wei to the beneficiary, 4 selfdestruct to the
+// beneficiary, 5 selfdestruct to itself, 6 forward + revert) with `val` wei attached
+type c05Step struct {
+	Mode  int    `json:"mode"`
+	Val   string `json:"val"`
+	W     string `json:"w"`
+	Benef string `json:"benef"` // B | R | D | X
 }
 
 type c05Case struct {
@@ -87,6 +97,7 @@ type c05Obs struct {
 
 var c05XInit = mustHex("6100bf600e6000396100bf6000f360003580600114610044578060021461004a578060031461004f57806004146100625780600514610067578060061461006a5780600714610081578060081461009e57005b60006000fd5b61004a565b60006000600060006020356040355af150005b604035ff5b30ff5b60006000600060006020356040355af15060006000fd5b6060360360606000376000600060603603600060006108005af150005b6060360360606000376000600060603603600060006108005af15060006000fd")
 var c05YRuntime = mustHex("33301461004257600060006000600065048c273950007300000000000000000000000000000000000000b25af150366000600037600060003660006000305af150005b3660006000376000600036600060006108005af150600060006000600064e8d4a510007300000000000000000000000000000000000000c35af15060006000fd")
+var c05DInit = mustHex("610045600e6000396100456000f360005b80602035146100435780608002604001803560005280604001356020528060600135604052600060006060600084602001356000355af15050600101610002565b00")
 var c05CreateOK = mustHex("600160005360016000f3")     // returns 1 byte of runtime code
 var c05CreateRevert = mustHex("60006000fd")
 
@@ -115,7 +126,7 @@ type c05World struct {
 	c        *Chain
 	deployer evmtest.EthPrivKeyAcc
 	dnonce   uint64
-	X, Y     gethcommon.Address
+	X, Y, D  gethcommon.Address
 	xAlive   bool
 	B2, C3   gethcommon.Address
 	blocks   int
@@ -150,6 +161,7 @@ func newC05World(t *testing.T) *c05World {
 	w.xAlive = true
 	yinit := append([]byte{0x60, byte(len(c05YRuntime)), 0x80, 0x60, 0x0B, 0x60, 0x00, 0x39, 0x60, 0x00, 0xF3}, c05YRuntime...)
 	w.Y = w.deploy(t, yinit, 100_000)
+	w.D = w.deploy(t, c05DInit, 1_000_000)
 	c.EndBlock()
 	return w
 }
@@ -209,7 +221,7 @@ func (w *c05World) runCase(t *testing.T, cs c05Case) ([]c05Der, []c05Obs) {
 			nonce = acc.GetSequence()
 		}
 		N := crypto.CreateAddress(S.EthAddr, nonce)
-		accts := []gethcommon.Address{S.EthAddr, fc, R, w.X, B, N, w.Y, w.B2, w.C3}
+		accts := []gethcommon.Address{S.EthAddr, fc, R, w.X, B, N, w.Y, w.B2, w.C3, w.D}
 		// payload
 		var to *gethcommon.Address
 		var data []byte
@@ -250,6 +262,30 @@ func (w *c05World) runCase(t *testing.T, cs c05Case) ([]c05Der, []c05Obs) {
 				t.Fatal(err)
 			}
 			data = in
+		case "d":
+			a := w.D
+			to = &a
+			toID = 9
+			hasCode = true
+			data = make([]byte, 64+128*len(tx.Steps))
+			copy(data[12:32], w.X.Bytes())
+			data[63] = byte(len(tx.Steps))
+			for i, st := range tx.Steps {
+				o := 64 + 128*i
+				data[o+31] = byte(st.Mode)
+				bigOf(st.Val).FillBytes(data[o+32 : o+64])
+				bigOf(st.W).FillBytes(data[o+64 : o+96])
+				ben := B
+				switch st.Benef {
+				case "R":
+					ben = R
+				case "D":
+					ben = w.D
+				case "X":
+					ben = w.X
+				}
+				copy(data[o+108:o+128], ben.Bytes())
+			}
 		case "create":
 			toID = 5
 			hasCode = true
@@ -290,6 +326,9 @@ func (w *c05World) runCase(t *testing.T, cs c05Case) ([]c05Der, []c05Obs) {
 			gas = intrinsic + uint64(tx.GasAdd)
 		case "ample":
 			gas = intrinsic + 300_000
+			if tx.Target == "d" {
+				gas = intrinsic + 2_000_000
+			}
 		case "large":
 			gas = blockGas
 		case "over":
@@ -401,8 +440,16 @@ func genC05Tx(r *Rng) c05Tx {
 	case 4: // huge
 		tx.Cap = "1000000000000000000"
 	}
-	tx.Target = []string{"eoa", "x", "create", "y"}[r.Pick(5, 8, 2, 1)]
+	tx.Target = []string{"eoa", "x", "create", "y", "d"}[r.Pick(5, 8, 2, 1, 4)]
 	switch tx.Target {
+	case "d":
+		// several calls into X inside one tx: self-destructs interleaved with payments into X and transfers out
+		n := r.Range(2, 5)
+		for i := 0; i < n; i++ {
+			st := c05Step{Mode: []int{0, 1, 3, 4, 5, 6}[r.Pick(2, 1, 3, 6, 2, 1)], Val: pickStr(r, "0", "3000000000000", "1000000000000", "2000000000001", "7000000000000", rndWei(r, 9)),
+				W: pickStr(r, "0", "1000000000000", "3000000000000", "999999999999", rndWei(r, 60)), Benef: pickStr(r, "B", "B", "R", "D", "X")}
+			tx.Steps = append(tx.Steps, st)
+		}
 	case "x":
 		tx.Mode = r.Pick(3, 2, 1, 4, 2, 2, 2, 3, 2)
 		if tx.Mode == 7 || tx.Mode == 8 {
@@ -413,7 +460,9 @@ func genC05Tx(r *Rng) c05Tx {
 	case "create":
 		tx.Mode = r.Pick(3, 1)
 	}
-	if tx.Target == "eoa" {
+	if tx.Target == "d" {
+		tx.GasMode = []string{"below", "exact", "ample"}[r.Pick(1, 1, 14)]
+	} else if tx.Target == "eoa" {
 		tx.GasMode = []string{"below", "exact", "plus", "ample", "large", "over"}[r.Pick(2, 4, 3, 3, 1, 1)]
 	} else {
 		tx.GasMode = []string{"below", "exact", "ample", "large", "over"}[r.Pick(1, 1, 8, 1, 1)]
@@ -429,6 +478,9 @@ func genC05Tx(r *Rng) c05Tx {
 	}
 	if tx.Target == "y" {
 		tx.Value = "0"
+	}
+	if tx.Target == "d" && (strings.HasPrefix(tx.Value, "bal-") || len(tx.Value) > 15) {
+		tx.Value = "1000000000000"
 	}
 	return tx
 }
@@ -478,6 +530,15 @@ func TestC05(t *testing.T) {
 		leg("ample", "1000000000001", "2000000000001", "x", 3, "999999999999")}})
 	run(c05Case{Fund: "1000000000000", RBal: "0", Txs: []c05Tx{leg("ample", base, "1000000000000", "x", 4, "0"), leg("ample", base, "1000000000000", "x", 5, "0"),
 		{Ty: 2, GasMode: "ample", Gp: "0", Tip: "300000000007", Cap: "1300000000006", Value: "5000000000999", Target: "create", W: "0"}}})
+	// … repeated self-destructs of one contract inside one tx with payments into it in between
+	kill := func(b string) c05Step { return c05Step{Mode: 4, Val: "0", W: "0", Benef: b} }
+	pay := func(v string) c05Step { return c05Step{Mode: 0, Val: v, W: "0", Benef: "B"} }
+	dtx := func(steps ...c05Step) c05Tx {
+		return c05Tx{Ty: 0, GasMode: "ample", Gp: base, Tip: "0", Cap: "0", Value: "0", Target: "d", W: "0", Steps: steps}
+	}
+	run(c05Case{Fund: "1000000000000", RBal: "0", Txs: []c05Tx{dtx(kill("B"), pay("3000000000000"), kill("B"), kill("R")),
+		dtx(kill("B"), pay("3000000000000"), kill("R"), c05Step{Mode: 3, Val: "0", W: "3000000000000", Benef: "D"}),
+		dtx(c05Step{Mode: 5, Val: "0", W: "0", Benef: "X"}, pay("2000000000000"), c05Step{Mode: 5, Val: "1000000000000", W: "0", Benef: "X"}, kill("D"), pay("4000000000001"))}})
 	// … prices below the base fee for each of the three tx types (charged and refunded at the base fee)
 	run(c05Case{Fund: "1000000000000", RBal: "0", Txs: []c05Tx{
 		{Ty: 1, GasMode: "plus", GasAdd: 79000, Gp: "0", Tip: "0", Cap: "0", Value: "0", Target: "eoa", W: "0"},
